@@ -11,7 +11,7 @@ MANIFEST = {
 RULE = ("seeded random gas/water networks with 1-3 pumps of different library types and compressors, each optionally with an out-of-service stand-by twin of another type placed before or after it in the table, active/inactive flow controllers, "
         "local and remote pressure controllers, one to three ext grids (also several on one junction, in/out of "
         "service), sinks/sources/storages with scaling, heights 0-60 m, temperatures 283-353 K, plus small heating "
-        "loops with mass and pressure circulation pumps; non-trivial = the run returned and at least 3 set-point "
+        "loops with mass and pressure circulation pumps; every 40th case a transient heat time series (start pressures differing from every prescribed pressure, each step monitored through hook H1); non-trivial = the run returned and at least 3 set-point "
         "identities of at least 2 kinds were judged; distinct = case parameter hash")
 ASSUMPTIONS = ["reported t_from_k / t_outlet_k are the temperatures the hydraulic law used (C02 checks that)"]
 CONFIG = {"quick": {"shards": 8, "timeout_s": 600, "cases": 560},
@@ -20,16 +20,21 @@ REQUIRED_COUNTERS = ["fixed_pressure_ext_grid", "fixed_pressure_several", "fixed
                      "press_control_setpoints", "press_control_setpoints_remote", "prescribed_flow_flow_control",
                      "prescribed_flow_circ_pump_mass", "lift_circ_pump_pressure", "compressor_forward",
                      "pump_curve_forward", "pump_lift_momentum", "nets_with_standby_machines", "load_reports_sink", "load_reports_source",
-                     "load_reports_mass_storage"]
+                     "load_reports_mass_storage", "transient_steps_monitored"]
 FEATS = [("pump", "multi_pump", "multi_grid", "mass_storage"), ("compressor", "multi_pump", "multi_grid"), ("flow_control", "valves", "mass_storage"),
          ("press_control", "multi_grid"), ("pump", "compressor", "multi_pump", "press_control", "flow_control", "multi_grid", "mass_storage", "oos")]
 FLUIDS = ["water", "lgas", "water", "hydrogen", "water", "hgas", "methane"]
 
 
+def worker_init(ctx):
+    from pvmon.props.common import transient_init
+    transient_init()
+
+
 def gen_cases(tier, seed):
     out = []
     for i in range(CONFIG[tier]["cases"]):
-        kind = "loop" if i % 5 == 4 else "net"
+        kind = "transient" if i % 40 == 13 else ("loop" if i % 5 == 4 else "net")
         out.append({"seed": seed, "i": i, "kind": kind, "fluid": FLUIDS[i % len(FLUIDS)],
                     "feats": list(FEATS[(i // 7) % len(FEATS)]), "tight": bool(i % 3 != 2), "numba": bool(i % 2)})
     _cases = out
@@ -132,6 +137,24 @@ def run_case(case, ctx):
         obs = Obs()
         n = run_suite_case(case, "C03", obs)
         rec = {"nontrivial": n > 0, "sample": {"repo_suite_part": case["part"], "pipeflow_calls_observed": n}, "evaluations": max(n, 1)}
+        rec.update(obs.record())
+        return rec
+    if case["kind"] == "transient":
+        # transient time series: the internal tables of the previous step are re-used - every step must still meet the set-points
+        from pvmon.props.common import run_transient_series
+        obs = Obs()
+        steps = []
+
+        def on_step(net):
+            o = dict(net["_options"])
+            mon_c03(net, obs, o)
+            steps.append(1)
+            obs.count("transient_steps_monitored")
+        spec, o = run_transient_series(rng_for("C03t", case["seed"], case["i"]), obs, on_step)
+        judged = {k: sum(v for c, v in obs.counters.items() if c.startswith(k)) for k in KINDS}
+        rec = {"nontrivial": len(steps) >= 2 and sum(judged.values()) >= 3,
+               "sample": {"case": case, "net": netgen.spec_summary(spec), "options": o, "transient_steps_monitored": len(steps), "identities_judged": judged},
+               "evaluations": max(len(steps), 1)}
         rec.update(obs.record())
         return rec
     spec, opts = make(case)
